@@ -135,7 +135,9 @@ pub fn parse_byte_list(input: &str) -> Result<Vec<u8>, DataError> {
             if c == '\\' {
                 check_escape = true
             } else {
-                bytes.push(c as u8);
+                // a character outside ASCII contributes all of its UTF-8 bytes instead of being truncated to one
+                let mut buffer = [0u8; 4];
+                bytes.extend_from_slice(c.encode_utf8(&mut buffer).as_bytes());
             }
         }
 
